@@ -699,7 +699,7 @@ def f10(ctx):
 
 
 # ---------------------------------------------------------------------- V1
-@rule('V1a', floor=5, title='a value read outside the lock treats a vanished file as a miss (IOError handled)')
+@rule('V1a', floor=6, title='a value read outside the lock treats a vanished file as a miss (IOError handled)')
 def v1a(ctx):
     sites = {}
     for f in core_entries(ctx):
@@ -720,12 +720,10 @@ def v1a(ctx):
     ordinal = {}
     for k in sorted(sites):
         info = sites[k]
-        if not info['unlocked']:
-            continue
         base = '%s/fetch' % info['f'].qual.replace('core.', '')
         ordinal[base] = ordinal.get(base, 0) + 1
         key = base if ordinal[base] == 1 else '%s#%d' % (base, ordinal[base])
-        obs.append(Ob('V1a', key, info['guarded'],
+        obs.append(Ob('V1a', key, info['guarded'] or not info['unlocked'],
                       'Disk.fetch runs without the write lock and outside any handler for IOError/OSError: a reader '
                       'that loses the race with a replace/delete gets an exception instead of a miss',
                       info['f'].loc(info['ev'].node)))
